@@ -14,7 +14,7 @@ impl<'a> VecOperator<'a> for BitUnpackOperator {
         let data = scratchpad.get(self.input);
         let mut unpacked = scratchpad.get_mut(self.output);
         if stream { unpacked.clear(); }
-        let mask = (1 << self.width) - 1;
+        let mask = ((1u64 << self.width) - 1) as i64;
         for d in data.iter() {
             unpacked.push((d >> self.shift) & mask);
         }
@@ -35,7 +35,7 @@ impl<'a> VecOperator<'a> for BitUnpackOperator {
 
     fn display_op(&self, alternate: bool) -> String {
         if alternate {
-            let mask = (1 << self.width) - 1;
+            let mask = ((1u64 << self.width) - 1) as i64;
             format!("({} >> {}) & {:x}", self.input, self.shift, mask)
         } else {
             format!("({} >> $shift) & $mask", self.input)
